@@ -1,44 +1,48 @@
 (* Properties_C09: the loop calls exactly the ready, subscribed channels -- same under epoll and poll.
    Only statements, closed by [exact], with Print Assumptions and non-vacuity examples.
-   Models: C09_Model (ep_step = EPollPoller + Channel; pp_step ri = PollPoller + Channel with
-   ri = "removeChannel resets the channel's index"; pp_step_current = pp_step at the generated
-   Gen_C09.PollPoller_remove_resets_index; loop_iter = one iteration of EventLoop::loop() around a
-   poller; env_ready / handleRead_env / timerRead_env = the wake-up eventfd and the timerfd).
+   Models (C09_Model): ep_step se = EPollPoller + Channel, pp_step ri ne = PollPoller + Channel, where
+     ri = PollPoller::removeChannel resets the removed channel's index          (F-1,  fixed bbde8b0)
+     se = EPollPoller::updateChannel only records a channel with an EMPTY interest (kDeleted) instead
+          of EPOLL_CTL_ADDing it                                                    (F-14, fixed a5a0563)
+     ne = PollPoller::updateChannel's new-entry branch stores -fd-1 for an empty interest     (same)
+   ep_step_current / pp_step_current instantiate them with the facts regenerated from the current
+   sources (Gen_C09); loop_iter = one iteration of EventLoop::loop() around a poller; env_ready /
+   handleRead_env / timerRead_env = the wake-up eventfd and the timerfd.
    Tie to /repo: regenerated constants/facts/functions (Gen_Consts, Gen_C09) with link lemmas, and the
    correspondence check (bin/check C09).
 
-   Histories: [hist_ok extra spec0 ops] / [reachE], [reachPC] = every op meets the documented
-   preconditions of the Channel API ([sguard]: one registered channel per descriptor, remove() only
-   when registered and isNoneEvent(), destruction only after remove(), no use of a destroyed object)
-   and the extra hypothesis.  Interest changes happen at quiescent points or inside the callbacks of
-   a batch (loop_iter).
+   Histories: [reachEC], [reachPC], [hist_ok no_extra] = every op meets the documented preconditions of
+   the Channel API ([sguard]: one registered channel per descriptor, remove() only when registered
+   and isNoneEvent(), destruction only after remove(), no use of a destroyed object) -- and NOTHING
+   else.  Interest changes happen at quiescent points or inside the callbacks of a batch (loop_iter).
 
-   F-1 (PollPoller::removeChannel left index_ set) is FIXED in /repo (bbde8b0): the theorems about the
-   current tree (C09_poll_refines, C09_backends_agree, ...) carry no hypothesis for it, they depend on
-   the generated fact through C09_poll_fix_generated; reverting the fix breaks them.  The statement
-   about the old code stays as C09_poll_reregister_refuted (ri = false).
-   F-14 (recorded in KNOWN_FINDINGS.txt, key F14.empty-interest-registered): an update that leaves the
-   interest empty, applied to a channel that is not in the kernel's set (fresh, or already fully
-   disabled), registers the descriptor with an EMPTY interest: HUP/ERR are then delivered to a
-   disabled channel (epoll: also after disableAll(); disableAll()), the back-ends differ, and
-   PollPoller::removeChannel asserts -> C09_disabled_called_refuted, C09_backends_agree_refuted,
-   C09_no_fault_refuted.  Every positive theorem therefore carries [sclean] ("no redundant
-   disable"): it is part of reachE / reachPC / hist_ok sclean / batch_ok and spelled out there. *)
+   Both findings of this property are FIXED in /repo; the theorems about the current tree carry no
+   extra hypothesis and depend on the generated facts through C09_epoll_fix_generated /
+   C09_poll_fix_generated: reverting either fix flips a fact and breaks them.  The statements about the
+   OLD shapes stay: the parameterised theorems (_partial: [eextra se] = sclean when se = false,
+   [pextra ri ne] = sclean when ne = false and sfresh when ri = false) and the refutations
+   C09_poll_reregister_refuted (ri = false), C09_disabled_called_refuted, C09_backends_agree_refuted,
+   C09_no_fault_refuted (se = false / ne = false). *)
 From Coq Require Import List ZArith NArith Lia Bool Arith Permutation.
 From Muduo Require Import Gen_Consts Gen_C09 C09_Model C09_Proofs C09_ProofsPoll C09_ProofsLoop C09_Witness.
 Import ListNotations.
 
-(* ---- epoll back-end ------------------------------------------------------------------------------- *)
-(* For every state reached by a history meeting the preconditions (and sclean), and every next op:
+(* ==== epoll back-end ==================================================================================== *)
+(* the generated fact: update(EPOLL_CTL_ADD, ..) only for a non-empty interest, otherwise set_index(kDeleted) *)
+Theorem C09_epoll_fix_generated : EPollPoller_add_skips_empty_interest = true.
+Proof. exact add_skips_current. Qed.
+Print Assumptions C09_epoll_fix_generated.
+
+(* CURRENT tree.  For every state reached by a history meeting the preconditions, and every next op:
    if the op meets them it succeeds (never Fault, never a failed epoll_ctl), and for Poll what the
-   kernel had ready is EXACTLY {(c, ready(fd c) & (events c | ERR|HUP|NVAL)) | c registered,
+   kernel has ready is EXACTLY {(c, ready(fd c) & (events c | ERR|HUP|NVAL)) | c registered,
    events c <> 0, intersection <> 0}; the reported list is a duplicate-free min(n,cap)-part of it
    whichever entries the kernel picks; nothing else changes, the array grows iff it was filled.
    If the op violates a precondition it is Rejected. *)
-Theorem C09_epoll_refines_partial : forall st sp, reachE st sp ->
+Theorem C09_epoll_refines : forall st sp, reachEC st sp ->
   forall o,
-    (sguard sp o -> sclean sp o ->
-       exists st' act, ep_step st o = Ok (st', act) /\ reachE st' (spec_step sp o) /\
+    (sguard sp o ->
+       exists st' act, ep_step_current st o = Ok (st', act) /\ reachEC st' (spec_step sp o) /\
          e_kerr st' = 0 /\
          match o with
          | Poll ready choice =>
@@ -50,110 +54,94 @@ Theorem C09_epoll_refines_partial : forall st sp, reachE st sp ->
              e_objs st' = e_objs st /\ e_map st' = e_map st /\ e_kern st' = e_kern st
          | _ => act = []
          end) /\
-    (~ sguard sp o -> ep_step st o = Rejected).
+    (~ sguard sp o -> ep_step_current st o = Rejected).
+Proof. exact reachEC_refines. Qed.
+Print Assumptions C09_epoll_refines.
+
+(* no op at all -- conforming or not -- faults from a reachable state *)
+Theorem C09_epoll_no_fault : forall st sp o, reachEC st sp -> ep_step_current st o <> Fault.
+Proof. exact reachEC_no_fault. Qed.
+Print Assumptions C09_epoll_no_fault.
+
+(* any shape of updateChannel (se); the old one needs "no redundant disable" *)
+Theorem C09_epoll_refines_partial : forall se st sp, reachE se st sp ->
+  forall o,
+    (sguard sp o -> eextra se sp o ->
+       exists st' act, ep_step se st o = Ok (st', act) /\ reachE se st' (spec_step sp o) /\
+         e_kerr st' = 0 /\
+         match o with
+         | Poll ready choice =>
+             (forall c r, In (c, r) (ep_full st ready) <-> spec_reports sp ready c r) /\
+             NoDup (map fst (ep_full st ready)) /\
+             (exists rest, Permutation (ep_full st ready) (act ++ rest)) /\
+             length act = Nat.min (length (ep_full st ready)) (e_cap st) /\
+             e_cap st' = ep_next_cap st (length (ep_full st ready)) /\
+             e_objs st' = e_objs st /\ e_map st' = e_map st /\ e_kern st' = e_kern st
+         | _ => act = []
+         end) /\
+    (~ sguard sp o -> ep_step se st o = Rejected).
 Proof. exact reachE_refines. Qed.
 Print Assumptions C09_epoll_refines_partial.
 
-Theorem C09_epoll_no_fault_partial : forall st sp o, reachE st sp -> sclean sp o -> ep_step st o <> Fault.
+Theorem C09_epoll_no_fault_partial : forall se st sp o, reachE se st sp -> eextra se sp o -> ep_step se st o <> Fault.
 Proof. exact reachE_no_fault. Qed.
 Print Assumptions C09_epoll_no_fault_partial.
 
-(* with N entries ready, after k polls with N < cap * 2^k (initially cap = 16: k = ceil(log2((N+1)/16)))
-   the array is larger than N, so poll k+1 reports every ready channel -- whichever subsets the kernel
-   picked in between.  Uses 2 <= EPollPoller_grow_factor (regenerated from EPollPoller::poll). *)
+Theorem C09_epoll_reach_inv : forall st sp, reachEC st sp -> InvE st sp.
+Proof. exact reachEC_inv. Qed.
+Print Assumptions C09_epoll_reach_inv.
+
+(* with N entries ready, after k polls with N < cap * 2^k the array is larger than N -- whichever subsets
+   the kernel picked in between.  Uses 2 <= EPollPoller_grow_factor (regenerated from EPollPoller::poll). *)
 Theorem C09_epoll_bounded : forall choices st sp ready,
   InvE st sp ->
   length (ep_full st ready) < e_cap st * 2 ^ length choices ->
-  exists st' outs, ep_run st (map (Poll ready) choices) = Ok (st', outs) /\
+  exists st' outs, ep_run_current st (map (Poll ready) choices) = Ok (st', outs) /\
      InvE st' sp /\ e_kern st' = e_kern st /\ length (ep_full st ready) < e_cap st'.
-Proof. exact ep_polls_grow. Qed.
+Proof. exact ep_polls_grow_current. Qed.
 Print Assumptions C09_epoll_bounded.
-
-Theorem C09_epoll_reach_inv : forall st sp, reachE st sp -> InvE st sp.
-Proof. exact reachE_inv. Qed.
-Print Assumptions C09_epoll_reach_inv.
 
 (* the bound in terms of the GENERATED constant and the GENERATED growth guard of EPollPoller::poll:
    from any reachable state (events_ never shrinks below kInitEventListSize), with N entries ready and
    N < kInitEventListSize * 2^k, after k polls -- whichever subsets the kernel picked -- the next poll
    reports every one of them *)
 Theorem C09_epoll_bounded_generated : forall choices choice st sp ready,
-  reachE st sp ->
+  reachEC st sp ->
   length (ep_full st ready) < Z.to_nat EPollPoller_kInitEventListSize * 2 ^ length choices ->
-  exists st' outs st'' act, ep_run st (map (Poll ready) choices) = Ok (st', outs) /\
-     ep_step st' (Poll ready choice) = Ok (st'', act) /\ Permutation (ep_full st ready) act.
-Proof. exact reachE_polls_report_all. Qed.
+  exists st' outs st'' act, ep_run_current st (map (Poll ready) choices) = Ok (st', outs) /\
+     ep_step_current st' (Poll ready choice) = Ok (st'', act) /\ Permutation (ep_full st ready) act.
+Proof. exact reachEC_polls_report_all. Qed.
 Print Assumptions C09_epoll_bounded_generated.
 
 (* the model's growth step IS the guard and the resize argument translated from EPollPoller::poll
    (numEvents = number of entries returned, size = events_.size()) *)
 Theorem C09_epoll_growth_generated : forall st ready choice st' act,
-  ep_step st (Poll ready choice) = Ok (st', act) ->
+  ep_step_current st (Poll ready choice) = Ok (st', act) ->
   Z.of_nat (e_cap st') =
   if EPollPoller_poll_grow_guard (Z.of_nat (length act)) (Z.of_nat (e_cap st))
   then EPollPoller_poll_new_size (Z.of_nat (e_cap st)) else Z.of_nat (e_cap st).
-Proof. exact ep_poll_cap_generated. Qed.
+Proof. exact (ep_poll_cap_generated EPollPoller_add_skips_empty_interest). Qed.
 Print Assumptions C09_epoll_growth_generated.
 
-Theorem C09_epoll_cap_never_below_init : forall st sp, reachE st sp ->
+Theorem C09_epoll_cap_never_below_init : forall st sp, reachEC st sp ->
   Z.to_nat EPollPoller_kInitEventListSize <= e_cap st.
-Proof. exact (fun st sp R => ie_capmin st sp (reachE_inv st sp R)). Qed.
+Proof. exact (fun st sp R => ie_capmin st sp (reachEC_inv st sp R)). Qed.
 Print Assumptions C09_epoll_cap_never_below_init.
 
-
-(* ---- poll back-end ------------------------------------------------------------------------------------ *)
-(* [reachP ri]: histories meeting the preconditions, sclean, and -- only when removeChannel does not
-   reset the index (ri = false) -- sfresh ("no update of a removed Channel object", finding F-1).
-   A conforming op succeeds (never Fault); Poll leaves the state alone and reports EXACTLY the set
-   {(c, ready(fd c) & (events c | ERR|HUP|NVAL)) | c registered, events c <> 0, intersection <> 0};
-   a violating op is Rejected. *)
-Theorem C09_poll_refines_partial : forall ri st sp, reachP ri st sp ->
-  forall o,
-    (sguard sp o -> pextra ri sp o ->
-       exists st' act, pp_step ri st o = Ok (st', act) /\ reachP ri st' (spec_step sp o) /\
-         match o with
-         | Poll ready _ => st' = st /\ forall c r, In (c, r) act <-> spec_reports sp ready c r
-         | _ => act = []
-         end) /\
-    (~ sguard sp o -> pp_step ri st o = Rejected).
-Proof. exact reachP_refines. Qed.
-Print Assumptions C09_poll_refines_partial.
-
-(* with the one-line repair (index reset) the F-1 hypothesis disappears: prepared for the fix: commit *)
-Theorem C09_poll_reset_no_extra : forall sp o, sclean sp o -> pextra true sp o.
-Proof. exact pextra_true. Qed.
-Print Assumptions C09_poll_reset_no_extra.
-
-(* the statement for the tree as it is now: ri = the regenerated fact *)
-Theorem C09_poll_refines_current : forall st sp, reachP PollPoller_remove_resets_index st sp ->
-  forall o,
-    (sguard sp o -> pextra PollPoller_remove_resets_index sp o ->
-       exists st' act, pp_step_current st o = Ok (st', act) /\
-         reachP PollPoller_remove_resets_index st' (spec_step sp o) /\
-         match o with
-         | Poll ready _ => st' = st /\ forall c r, In (c, r) act <-> spec_reports sp ready c r
-         | _ => act = []
-         end) /\
-    (~ sguard sp o -> pp_step_current st o = Rejected).
-Proof. exact (reachP_refines PollPoller_remove_resets_index). Qed.
-Print Assumptions C09_poll_refines_current.
-
-Theorem C09_poll_reach_inv : forall ri st sp, reachP ri st sp -> InvP ri st sp.
-Proof. exact reachP_inv. Qed.
-Print Assumptions C09_poll_reach_inv.
-
-(* ---- poll back-end of the CURRENT tree: F-1 fixed, no sfresh ------------------------------------------ *)
-(* the generated fact: PollPoller::removeChannel ends with channel->set_index(<negative>) *)
-Theorem C09_poll_fix_generated : PollPoller_remove_resets_index = true.
-Proof. exact resets_index_current. Qed.
+(* ==== poll back-end ===================================================================================== *)
+(* the generated facts: removeChannel ends with channel->set_index(<negative>); a new entry with an empty
+   interest is stored as -fd-1 and channels_ is keyed by channel->fd() *)
+Theorem C09_poll_fix_generated :
+  PollPoller_remove_resets_index = true /\ PollPoller_new_entry_negates_empty = true.
+Proof. exact (conj resets_index_current new_entry_negates_current). Qed.
 Print Assumptions C09_poll_fix_generated.
 
-(* [reachPC]: ALL histories meeting the preconditions and sclean under pp_step_current -- remove() and
-   re-registration of the same Channel object included.  Every conforming op succeeds; Poll leaves the
-   state alone and reports EXACTLY the interest map's set; a violating op is Rejected. *)
+(* CURRENT tree, ALL histories meeting the preconditions -- remove() and re-registration of the same
+   Channel object and redundant disables included.  Every conforming op succeeds; Poll leaves the state
+   alone and reports EXACTLY the interest map's set; a violating op is Rejected. *)
 Theorem C09_poll_refines : forall st sp, reachPC st sp ->
   forall o,
-    (sguard sp o -> sclean sp o ->
+    (sguard sp o ->
        exists st' act, pp_step_current st o = Ok (st', act) /\ reachPC st' (spec_step sp o) /\
          match o with
          | Poll ready _ => st' = st /\ forall c r, In (c, r) act <-> spec_reports sp ready c r
@@ -163,38 +151,48 @@ Theorem C09_poll_refines : forall st sp, reachPC st sp ->
 Proof. exact reachPC_refines. Qed.
 Print Assumptions C09_poll_refines.
 
-Theorem C09_poll_no_fault : forall st sp o, reachPC st sp -> sclean sp o -> pp_step_current st o <> Fault.
+Theorem C09_poll_no_fault : forall st sp o, reachPC st sp -> pp_step_current st o <> Fault.
 Proof. exact reachPC_no_fault. Qed.
 Print Assumptions C09_poll_no_fault.
 
-(* every history (list of ops) meeting the preconditions and sclean runs to the end on both back-ends
-   and reaches states related to the same interest map *)
-Theorem C09_histories_run : forall ops, hist_ok sclean spec0 ops ->
-  (exists stE outsE, ep_run ep_init ops = Ok (stE, outsE) /\ reachE stE (spec_run spec0 ops)) /\
+(* any shape (ri, ne): the old ones need sfresh (ri = false) / sclean (ne = false) *)
+Theorem C09_poll_refines_partial : forall ri ne st sp, reachP ri ne st sp ->
+  forall o,
+    (sguard sp o -> pextra ri ne sp o ->
+       exists st' act, pp_step ri ne st o = Ok (st', act) /\ reachP ri ne st' (spec_step sp o) /\
+         match o with
+         | Poll ready _ => st' = st /\ forall c r, In (c, r) act <-> spec_reports sp ready c r
+         | _ => act = []
+         end) /\
+    (~ sguard sp o -> pp_step ri ne st o = Rejected).
+Proof. exact reachP_refines. Qed.
+Print Assumptions C09_poll_refines_partial.
+
+(* with both repairs no extra hypothesis is left *)
+Theorem C09_poll_fixed_no_extra : forall sp o, pextra true true sp o.
+Proof. exact pextra_true. Qed.
+Print Assumptions C09_poll_fixed_no_extra.
+
+Theorem C09_poll_reach_inv : forall ri ne st sp, reachP ri ne st sp -> InvP ri st sp.
+Proof. exact reachP_inv. Qed.
+Print Assumptions C09_poll_reach_inv.
+
+(* every history (list of ops) meeting the preconditions runs to the end on both back-ends of the
+   current tree and reaches states related to the same interest map *)
+Theorem C09_histories_run : forall ops, hist_ok no_extra spec0 ops ->
+  (exists stE outsE, ep_run_current ep_init ops = Ok (stE, outsE) /\ reachEC stE (spec_run spec0 ops)) /\
   (exists stP outsP, pp_run_current pp_init ops = Ok (stP, outsP) /\ reachPC stP (spec_run spec0 ops)).
 Proof. exact histories_run. Qed.
 Print Assumptions C09_histories_run.
 
-(* ---- both back-ends, same history --------------------------------------------------------------------- *)
-(* the poll back-end reports exactly what the kernel has ready for the epoll back-end; epoll reports
-   a part of it, and all of it when it fits the result array *)
-Theorem C09_backends_agree_partial : forall ri stE stP sp ready choiceE choiceP stP' actP,
-  reachE stE sp -> reachP ri stP sp ->
-  pp_step ri stP (Poll ready choiceP) = Ok (stP', actP) ->
-  (forall c r, In (c, r) actP <-> In (c, r) (ep_full stE ready)) /\
-  (exists stE' actE, ep_step stE (Poll ready choiceE) = Ok (stE', actE) /\
-     (forall c r, In (c, r) actE -> In (c, r) actP) /\
-     (length (ep_full stE ready) <= e_cap stE -> forall c r, In (c, r) actP -> In (c, r) actE)).
-Proof. exact backends_agree. Qed.
-Print Assumptions C09_backends_agree_partial.
-
-(* the current tree, ALL sclean histories: both polls succeed; poll's list = the interest map's set =
-   what the kernel has ready for epoll; epoll's list is a part of it, all of it when it fits events_ *)
+(* ==== both back-ends, same history ====================================================================== *)
+(* CURRENT tree, ALL histories: both polls succeed; poll's list = the interest map's set = what the kernel
+   has ready for epoll; epoll's list is a part of it, all of it when it fits events_ *)
 Theorem C09_backends_agree : forall stE stP sp ready choiceE choiceP,
-  reachE stE sp -> reachPC stP sp ->
+  reachEC stE sp -> reachPC stP sp ->
   exists actP stE' actE,
     pp_step_current stP (Poll ready choiceP) = Ok (stP, actP) /\
-    ep_step stE (Poll ready choiceE) = Ok (stE', actE) /\
+    ep_step_current stE (Poll ready choiceE) = Ok (stE', actE) /\
     (forall c r, In (c, r) actP <-> spec_reports sp ready c r) /\
     (forall c r, In (c, r) actP <-> In (c, r) (ep_full stE ready)) /\
     (forall c r, In (c, r) actE -> In (c, r) actP) /\
@@ -202,7 +200,17 @@ Theorem C09_backends_agree : forall stE stP sp ready choiceE choiceP,
 Proof. exact backends_agree_current. Qed.
 Print Assumptions C09_backends_agree.
 
-(* ---- dispatch (Channel::handleEventWithGuard) ----------------------------------------------------- *)
+Theorem C09_backends_agree_partial : forall se ri ne stE stP sp ready choiceE choiceP stP' actP,
+  reachE se stE sp -> reachP ri ne stP sp ->
+  pp_step ri ne stP (Poll ready choiceP) = Ok (stP', actP) ->
+  (forall c r, In (c, r) actP <-> In (c, r) (ep_full stE ready)) /\
+  (exists stE' actE, ep_step se stE (Poll ready choiceE) = Ok (stE', actE) /\
+     (forall c r, In (c, r) actE -> In (c, r) actP) /\
+     (length (ep_full stE ready) <= e_cap stE -> forall c r, In (c, r) actP -> In (c, r) actE)).
+Proof. exact backends_agree. Qed.
+Print Assumptions C09_backends_agree_partial.
+
+(* ==== dispatch (Channel::handleEventWithGuard, Channel::handleEvent) ==================================== *)
 Theorem C09_dispatch_sound : forall r,
   (In CbRead (dispatch r) <-> N.land r (N.lor POLLIN (N.lor POLLPRI POLLRDHUP)) <> 0%N) /\
   (In CbWrite (dispatch r) <-> N.land r POLLOUT <> 0%N) /\
@@ -251,7 +259,7 @@ Theorem C09_reported_holds : forall ready_bits ev m,
 Proof. exact reported_holds. Qed.
 Print Assumptions C09_reported_holds.
 
-(* ---- one iteration of EventLoop::loop(): dispatch from the activeChannels_ snapshot ------------------ *)
+(* ==== one iteration of EventLoop::loop(): dispatch from the activeChannels_ snapshot ==================== *)
 (* generated: the while body is clear(); poll(.., &activeChannels_); for (channel : activeChannels_)
    handleEvent -- with no test in the loop body *)
 Theorem C09_loop_dispatches_snapshot_generated : EventLoop_loop_dispatches_snapshot = true.
@@ -259,20 +267,20 @@ Proof. exact loop_snapshot_current. Qed.
 Print Assumptions C09_loop_dispatches_snapshot_generated.
 
 (* For every reachable state, every poll result [act] and every callback behaviour [h] whose Channel
-   API calls respect the preconditions ([batch_ok]: sguard, sclean, EventLoop::removeChannel's and
-   ~Channel's asserts):
+   API calls respect the preconditions ([batch_ok]: sguard, EventLoop::removeChannel's and ~Channel's
+   asserts):
    (1) the iteration runs the callbacks of EVERY channel of the snapshot, as dispatched from the revents
        of poll time -- so a channel disabled by an earlier callback of the same batch IS still called;
    (2) every channel of the snapshot was subscribed and ready AT POLL TIME;
    (3) afterwards the poller is in the state the callbacks' calls lead to, and every later poll reports
        only channels subscribed in THAT interest map: the staleness cannot outlive the iteration. *)
 Theorem C09_stale_within_batch : forall h runs st sp ready choice st1 act,
-  reachE st sp -> ep_step st (Poll ready choice) = Ok (st1, act) ->
+  reachEC st sp -> ep_step_current st (Poll ready choice) = Ok (st1, act) ->
   batch_ok h (map fst act) sp (callbacks_g runs act) ->
   exists st', ep_loop_iter h runs st ready choice = Ok (st', act, callbacks_g runs act) /\
-    reachE st' (spec_run sp (batch_ops h (callbacks_g runs act))) /\
+    reachEC st' (spec_run sp (batch_ops h (callbacks_g runs act))) /\
     (forall c r, In (c, r) act -> spec_reports sp ready c r) /\
-    (forall ready' choice' st'' act', ep_step st' (Poll ready' choice') = Ok (st'', act') ->
+    (forall ready' choice' st'' act', ep_step_current st' (Poll ready' choice') = Ok (st'', act') ->
        forall c r, In (c, r) act' -> spec_reports (spec_run sp (batch_ops h (callbacks_g runs act))) ready' c r).
 Proof. exact stale_within_batch_E. Qed.
 Print Assumptions C09_stale_within_batch.
@@ -301,7 +309,7 @@ Theorem C09_batch_asserts : forall snap cur c,
 Proof. exact (fun snap cur c => conj (loop_guard_remove_ahead snap cur c) (loop_guard_del_current snap cur)). Qed.
 Print Assumptions C09_batch_asserts.
 
-(* ---- the loop's own descriptors: drained on notification, so an idle loop blocks ------------------------ *)
+(* ==== the loop's own descriptors: drained on notification, so an idle loop blocks ======================= *)
 (* generated: EventLoop::handleRead reads 8 bytes from wakeupFd_ unconditionally, the eventfd is no
    semaphore; TimerQueue::handleRead calls readTimerfd(timerfd_, ..) which reads 8 bytes *)
 Theorem C09_wakeup_reads_generated :
@@ -316,17 +324,17 @@ Print Assumptions C09_wakeup_reads_generated.
    counters; after that NOTHING is ready in any state with this interest map: epoll_wait has nothing to
    return and blocks (until its time-out or a new event) -- the loop does not spin. *)
 Theorem C09_wakeup_drained : forall h runs user wc tc wfd tfd st sp e choice,
-  reachE st sp -> loop_channels sp wc tc wfd tfd -> others_quiet sp wc tc e ->
+  reachEC st sp -> loop_channels sp wc tc wfd tfd -> others_quiet sp wc tc e ->
   runs wc = true -> runs tc = true -> (forall k, h wc k = []) -> (forall k, h tc k = []) ->
   exists st' act e',
-    loop_iter_env ep ep_step h runs (effects_current wc tc user) wfd tfd st e choice = Ok (st', act, callbacks_g runs act, e') /\
-    reachE st' sp /\
+    loop_iter_env ep ep_step_current h runs (effects_current wc tc user) wfd tfd st e choice = Ok (st', act, callbacks_g runs act, e') /\
+    reachEC st' sp /\
     (forall c r, In (c, r) act <->
        (c = wc /\ (0 < k_wake e)%N /\ r = POLLIN) \/ (c = tc /\ (0 < k_texp e)%N /\ r = POLLIN)) /\
     (forall ck, In ck (callbacks_g runs act) <->
        (ck = (wc, CbRead) /\ (0 < k_wake e)%N) \/ (ck = (tc, CbRead) /\ (0 < k_texp e)%N)) /\
     k_wake e' = 0%N /\ k_texp e' = 0%N /\ k_rd e' = k_rd e /\
-    (forall st2, reachE st2 sp -> ep_full st2 (env_ready wfd tfd e') = []).
+    (forall st2, reachEC st2 sp -> ep_full st2 (env_ready wfd tfd e') = []).
 Proof. exact wakeup_drained_E. Qed.
 Print Assumptions C09_wakeup_drained.
 
@@ -348,36 +356,38 @@ Print Assumptions C09_wakeup_drained_poll.
 (* the contrast (why the read matters): a handleRead that does not read leaves the eventfd readable and
    the wake-up channel is in the kernel's ready set again at once -- every iteration returns immediately *)
 Theorem C09_wakeup_undrained_spins : forall h runs user sem sz wc tc wfd tfd st sp e choice,
-  reachE st sp -> loop_channels sp wc tc wfd tfd -> others_quiet sp wc tc e ->
+  reachEC st sp -> loop_channels sp wc tc wfd tfd -> others_quiet sp wc tc e ->
   runs wc = true -> runs tc = true -> (forall k, h wc k = []) -> (forall k, h tc k = []) ->
   (0 < k_wake e)%N ->
   exists st' act e',
-    loop_iter_env ep ep_step h runs (loop_effects (handleRead_env false sem sz) timer_rd_current wc tc user)
+    loop_iter_env ep ep_step_current h runs (loop_effects (handleRead_env false sem sz) timer_rd_current wc tc user)
       wfd tfd st e choice = Ok (st', act, callbacks_g runs act, e') /\
-    reachE st' sp /\ In (wc, POLLIN) act /\ k_wake e' = k_wake e /\
+    reachEC st' sp /\ In (wc, POLLIN) act /\ k_wake e' = k_wake e /\
     In (wc, POLLIN) (ep_full st' (env_ready wfd tfd e')).
 Proof. exact wakeup_undrained_spins_E. Qed.
 Print Assumptions C09_wakeup_undrained_spins.
 
-(* ---- findings: the full statements are false of the faithful models ------------------------------- *)
-(* F-1: with the pinned removeChannel (no index reset) re-enabling a removed Channel object takes the
-   update branch with a stale slot: assertion failure / out-of-bounds = Fault.  The history meets all
+(* ==== findings: the full statements are false of the models of the OLD shapes of the code ============== *)
+(* F-1 (fixed bbde8b0): without the index reset re-enabling a removed Channel object takes the update
+   branch with a stale slot: assertion failure / out-of-bounds = Fault.  The history meets all
    preconditions and has no redundant disable; epoll and the repaired poll back-end handle it. *)
 Theorem C09_poll_reregister_refuted : exists ops,
-  hist_ok sclean spec0 ops /\ pp_run false pp_init ops = Fault /\
-  (exists st outs, pp_run true pp_init ops = Ok (st, outs)) /\
-  (exists st outs, ep_run ep_init ops = Ok (st, outs)).
+  hist_ok sclean spec0 ops /\ (forall ne, pp_run false ne pp_init ops = Fault) /\
+  (forall ne, exists st outs, pp_run true ne pp_init ops = Ok (st, outs)) /\
+  (forall se, exists st outs, ep_run se ep_init ops = Ok (st, outs)).
 Proof.
   exists w_reregister.
   exact (conj w_reregister_ok (conj w_reregister_faults (conj w_reregister_fixed_ok w_reregister_epoll_ok))).
 Qed.
 Print Assumptions C09_poll_reregister_refuted.
 
-(* F-14: a disabled channel is called (epoll: disableAll twice; both: disableAll on a fresh channel) *)
+(* F-14 (fixed a5a0563): with the old updateChannel (se = false) a disabled channel is called (epoll:
+   disableAll twice), the back-ends differ, and (ne = false) disableAll on a fresh channel followed by
+   remove() faults under poll *)
 Theorem C09_disabled_called_refuted : exists ops ready,
   hist_ok any_hist spec0 ops /\
   (forall c r, ~ spec_reports (spec_run spec0 ops) ready c r) /\
-  exists st outs, ep_run ep_init ops = Ok (st, outs) /\ last outs [] = [(0, POLLHUP)] /\
+  exists st outs, ep_run false ep_init ops = Ok (st, outs) /\ last outs [] = [(0, POLLHUP)] /\
                   callbacks (last outs []) = [(0, CbClose)].
 Proof.
   exists w_double_disable, readyHUP.
@@ -387,35 +397,48 @@ Print Assumptions C09_disabled_called_refuted.
 
 Theorem C09_backends_agree_refuted : exists ops,
   hist_ok any_hist spec0 ops /\
-  (exists st outs, ep_run ep_init ops = Ok (st, outs) /\ last outs [] = [(0, POLLHUP)]) /\
-  (forall ri, exists st outs, pp_run ri pp_init ops = Ok (st, outs) /\ last outs [] = []).
+  (exists st outs, ep_run false ep_init ops = Ok (st, outs) /\ last outs [] = [(0, POLLHUP)]) /\
+  (forall ri ne, exists st outs, pp_run ri ne pp_init ops = Ok (st, outs) /\ last outs [] = []).
 Proof. exists w_double_disable. exact w_backends_differ. Qed.
 Print Assumptions C09_backends_agree_refuted.
 
 Theorem C09_no_fault_refuted : exists ops,
-  hist_ok any_hist spec0 ops /\ forall ri, pp_run ri pp_init ops = Fault.
+  hist_ok any_hist spec0 ops /\ forall ri, pp_run ri false pp_init ops = Fault.
 Proof. exists w_fresh_disable_remove. exact (conj w_fresh_disable_remove_ok w_fresh_disable_remove_faults). Qed.
 Print Assumptions C09_no_fault_refuted.
 
-(* ---- non-vacuity: reachable states after a swap-and-pop of a middle entry ------------------------------ *)
+(* the same three F-14 histories on the CURRENT tree: nothing is reported for the disabled channel under
+   either back-end, and the remove() runs *)
+Theorem C09_f14_witnesses_current :
+  ((exists st outs, ep_run_current ep_init w_double_disable = Ok (st, outs) /\ last outs [] = []) /\
+   (exists st outs, pp_run_current pp_init w_double_disable = Ok (st, outs) /\ last outs [] = [])) /\
+  ((exists st outs, ep_run_current ep_init w_fresh_disable_remove = Ok (st, outs)) /\
+   (exists st outs, pp_run_current pp_init w_fresh_disable_remove = Ok (st, outs))) /\
+  ((exists st outs, ep_run_current ep_init w_fresh_disable_poll = Ok (st, outs) /\ last outs [] = []) /\
+   (exists st outs, pp_run_current pp_init w_fresh_disable_poll = Ok (st, outs) /\ last outs [] = [])).
+Proof. exact (conj w_double_disable_current (conj w_fresh_disable_remove_current w_fresh_disable_poll_current)). Qed.
+Print Assumptions C09_f14_witnesses_current.
+
+(* ==== non-vacuity ======================================================================================== *)
+(* reachable states after a swap-and-pop of a middle entry *)
 Example ex_reachE : exists st outs,
-  ep_run ep_init w_swap = Ok (st, outs) /\ reachE st (spec_run spec0 w_swap) /\
+  ep_run_current ep_init w_swap = Ok (st, outs) /\ reachEC st (spec_run spec0 w_swap) /\
   length (e_kern st) = 2 /\ last outs [] = [(0, 1%N); (2, 5%N)].
 Proof.
-  destruct (run_reachE w_swap ep_init spec0 reachE_init) as [st [outs [E R]]].
-  { eapply hist_ok_weaken; [|exact w_swap_ok]. intros sp o [H _]. exact H. }
+  destruct (run_reachEC w_swap ep_init spec0 reachEC_init) as [st [outs [E R]]].
+  { eapply hist_ok_weaken; [|exact w_swap_ok]. intros sp o _. exact Logic.I. }
   exists st, outs. split; [exact E|]. split; [exact R|].
   vm_compute in E. injection E as <- <-. split; reflexivity.
 Qed.
 
-Example ex_reachP : forall ri, exists st outs,
-  pp_run ri pp_init w_swap = Ok (st, outs) /\ reachP ri st (spec_run spec0 w_swap) /\
+Example ex_reachP : forall ri ne, exists st outs,
+  pp_run ri ne pp_init w_swap = Ok (st, outs) /\ reachP ri ne st (spec_run spec0 w_swap) /\
   p_pfds st = [mkPfd 0 3; mkPfd 2 7] /\ last outs [] = [(0, 1%N); (2, 5%N)].
 Proof.
-  intros ri. destruct (run_reachP ri w_swap pp_init spec0 (reachP_init ri)) as [st [outs [E R]]].
-  { eapply hist_ok_weaken; [|exact w_swap_ok]. intros sp o [H1 H2]. split; [exact H1|intros _; exact H2]. }
+  intros ri ne. destruct (run_reachP ri ne w_swap pp_init spec0 (reachP_init ri ne)) as [st [outs [E R]]].
+  { eapply hist_ok_weaken; [|exact w_swap_ok]. intros sp o [H1 H2]. split; intros _; assumption. }
   exists st, outs. split; [exact E|]. split; [exact R|].
-  destruct ri; vm_compute in E; injection E as <- <-; split; reflexivity.
+  destruct ri, ne; vm_compute in E; injection E as <- <-; split; reflexivity.
 Qed.
 
 (* the growth bound is not vacuous: 16 * 2^5 exceeds 300 *)
@@ -428,36 +451,43 @@ Example ex_reregister_current : exists st outs,
   pp_run_current pp_init w_reregister = Ok (st, outs) /\ reachPC st (spec_run spec0 w_reregister) /\
   pp_step_current st (Poll readyIN []) = Ok (st, [(0, POLLIN)]).
 Proof.
-  destruct (run_reachPC w_reregister pp_init spec0 reachPC_init w_reregister_ok) as [st [outs [E R]]].
+  destruct (run_reachPC w_reregister pp_init spec0 reachPC_init w_reregister_pre) as [st [outs [E R]]].
   exists st, outs. split; [exact E|]. split; [exact R|].
   vm_compute in E. injection E as <- <-. vm_compute. reflexivity.
+Qed.
+
+(* the F-14 witness (disableAll twice) is a history of the current theorems' domain *)
+Example ex_double_disable_current : exists stE stP,
+  reachEC stE (spec_run spec0 w_double_disable) /\ reachPC stP (spec_run spec0 w_double_disable).
+Proof.
+  destruct (histories_run w_double_disable w_double_disable_ok) as [[stE [oE [_ RE]]] [stP [oP [_ RP]]]].
+  exists stE, stP. split; assumption.
 Qed.
 
 (* stale within the batch is not vacuous: 0 and 1 both readable, 0's read callback disables 1 -- 1 is
    still called in this iteration, and is not reported in the next one *)
 Example ex_stale_within_batch : exists st0 outs st1 st2,
-  ep_run ep_init w_two = Ok (st0, outs) /\ reachE st0 (spec_run spec0 w_two) /\
+  ep_run_current ep_init w_two = Ok (st0, outs) /\ reachEC st0 (spec_run spec0 w_two) /\
   batch_ok h_stale [0; 1] (spec_run spec0 w_two) [(0, CbRead); (1, CbRead)] /\
   ep_loop_iter h_stale all_run st0 readyIN [] = Ok (st1, [(0, POLLIN); (1, POLLIN)], [(0, CbRead); (1, CbRead)]) /\
-  ep_loop_iter (fun _ _ => []) all_run st1 readyIN [] = Ok (st2, [(0, POLLIN)], [(0, CbRead)]).
+  ep_loop_iter h_stale all_run st1 readyIN [] = Ok (st2, [(0, POLLIN)], [(0, CbRead)]).
 Proof.
-  destruct (run_reachE w_two ep_init spec0 reachE_init w_two_ok) as [st0 [outs [E R]]].
+  destruct (run_reachEC w_two ep_init spec0 reachEC_init w_two_ok) as [st0 [outs [E R]]].
   exists st0, outs. vm_compute in E. injection E as <- <-.
   eexists _, _. split; [reflexivity|]. split; [exact R|]. split.
   - cbn [batch_ok fst snd h_stale]. split; [|split; exact I].
-    cbn [cb_ops_ok]. split; [reflexivity|]. split; [|split; [|exact I]].
-    + eexists. split; [reflexivity|]. left. reflexivity.
-    + intros s H. injection H as <-. intros _. split; [reflexivity|]. vm_compute. discriminate.
+    cbn [cb_ops_ok]. split; [reflexivity|]. split; [|exact I].
+    eexists. split; [reflexivity|]. left. reflexivity.
   - split; vm_compute; reflexivity.
 Qed.
 
 (* the hypotheses of C09_wakeup_drained are inhabited: the loop's channels as its constructors leave them *)
 Example ex_wakeup_setup : exists st outs,
-  ep_run ep_init w_loop_init = Ok (st, outs) /\ reachE st (spec_run spec0 w_loop_init) /\
+  ep_run_current ep_init w_loop_init = Ok (st, outs) /\ reachEC st (spec_run spec0 w_loop_init) /\
   loop_channels (spec_run spec0 w_loop_init) 1 0 4 3 /\
   forall e, others_quiet (spec_run spec0 w_loop_init) 1 0 e.
 Proof.
-  destruct (run_reachE w_loop_init ep_init spec0 reachE_init w_loop_init_ok) as [st [outs [E R]]].
+  destruct (run_reachEC w_loop_init ep_init spec0 reachEC_init w_loop_init_ok) as [st [outs [E R]]].
   exists st, outs. split; [exact E|]. split; [exact R|]. split.
   - split; [discriminate|]. split; exists false; vm_compute; reflexivity.
   - intros e c s H _ N1 N0. destruct c as [|[|c]]; [contradiction|contradiction|]. cbn in H. discriminate.
